@@ -124,10 +124,23 @@ def rule_writers(ctx, facts, rule):
     return table
 
 
+def decoder(ctx, facts, rule):
+    """The traceparent decoder with the id types' own FromStr impls looked through (`field.parse::<TraceId>()` is the hex parse
+    those impls perform; they are checked in their own right as readers of Display)."""
+    from .core import inline_calls
+    fn = ctx.need_fn(facts, ID + "SpanContext::decode_w3c_traceparent", rule)
+    if fn is None:
+        return None
+    ids = {"<fastrace::collector::id::%s as core::str::traits::FromStr>::from_str" % t for t in ("TraceId", "SpanId")}
+    if any(fn.term(b)["callee"] in ids for b in fn.calls()):
+        fn = inline_calls(facts, fn, lambda g: g.path in ids, depth=2)
+    return fn
+
+
 def rule_reader_agrees(ctx, facts, rule, table):
     prov = Prov(facts)
     path = ID + "SpanContext::decode_w3c_traceparent"
-    fn = ctx.need_fn(facts, path, rule)
+    fn = decoder(ctx, facts, rule)
     enc = table.get(ID + "SpanContext::encode_w3c_traceparent")
     if fn is None or not enc:
         return
@@ -348,7 +361,7 @@ def rule_sign_rejected(ctx, facts, rule):
     digits some other way: none of the accepted idioms below -> reported)."""
     prov = Prov(facts)
     path = ID + "SpanContext::decode_w3c_traceparent"
-    fn = ctx.need_fn(facts, path, rule)
+    fn = decoder(ctx, facts, rule)
     if fn is None:
         return
     nexts = [b for b in fn.calls_re(r"Iterator>?::next$", cleanup=False) if "Split<" in fn.term(b)["arg_tys"][0]]
@@ -406,7 +419,7 @@ def rule_values_not_tested(ctx, facts, rule):
     result (the writer emits every value, so rejecting some value breaks encode -> decode for it)."""
     prov = Prov(facts)
     path = ID + "SpanContext::decode_w3c_traceparent"
-    fn = ctx.need_fn(facts, path, rule)
+    fn = decoder(ctx, facts, rule)
     if fn is None:
         return
     none_blocks = set()
@@ -445,7 +458,7 @@ def rule_error_discipline(ctx, facts, rule):
         for tr in ("core::str::traits::FromStr>::from_str", "serde::de::Deserialize<'de>>::deserialize")]
     n = 0
     for p in fns:
-        fn = facts.fn(p)
+        fn = facts.fn(p) if not p.endswith("decode_w3c_traceparent") else decoder(ctx, facts, rule)
         if fn is None:
             continue
         for b in fn.calls_re(r"core::num::<impl u\d+>::from_str_radix$", cleanup=False):
@@ -465,7 +478,7 @@ def rule_error_discipline(ctx, facts, rule):
             returned = any(s["k"] == "assign" and s["lhs"]["l"] == 0 and s["rv"]["k"] == "use" and s["rv"]["op"].get("l") == dest
                            for blk in fn.blocks for s in blk["stmts"])
             if p.endswith("decode_w3c_traceparent"):
-                ok = users and all(re.search(r"Result::<T, E>::ok$", u) for u in users)
+                ok = users and all(re.search(r"Result::<T, E>::(ok|map)$", u) for u in users)
                 # and the Option goes through `?`
                 for x in fn.calls_re(r"Result::<T, E>::ok$", cleanup=False):
                     if root_local(fn, fn.term(x)["args"][0])[0] == dest:
